@@ -331,6 +331,11 @@ def rule_memo_on_pull(db: ProgramDB) -> List[Instance]:
                     if stored_at is None and isinstance(s, ast.Expr) and isinstance(s.value, ast.Call) and call_attr(s.value) == "add" \
                             and isinstance(s.value.func.value, ast.Name) and s.value.func.value.id == "self":
                         stored_at = i
+                    # self.values.setdefault(id, v) / self.values.update({id: v}) store as well
+                    if stored_at is None and isinstance(s, ast.Expr) and isinstance(s.value, ast.Call) and call_attr(s.value) in ("setdefault", "update", "__setitem__") \
+                            and isinstance(s.value.func.value, ast.Attribute) and s.value.func.value.attr == "values" \
+                            and {x.id for a in s.value.args for x in ast.walk(a) if isinstance(x, ast.Name)} & tnames:
+                        stored_at = i
                     if handed_at is None and any(isinstance(x, (ast.Yield, ast.YieldFrom, ast.Return, ast.Break))
                                                  for x in [s] + list(own_nodes(s))):
                         handed_at = i
